@@ -22,11 +22,16 @@ type sop struct {
 	Epoch string `json:"epoch,omitempty"` // current, stale, zero, future, huge
 	// ack/clear: X = "last" (the seqno last received / sent) or "bogus"
 	X string `json:"x,omitempty"`
+	// send: Reuse re-uses the message seqno of the previous send on this stream (a "retransmission")
+	Reuse bool `json:"reuse,omitempty"`
 }
 
 func (o sop) String() string {
 	switch o.Op {
 	case "send":
+		if o.Reuse {
+			return fmt.Sprintf("send(%d->%d,%s,%s,reuse-seqno)", o.P, o.Q, o.Kind, o.Epoch)
+		}
 		return fmt.Sprintf("send(%d->%d,%s,%s)", o.P, o.Q, o.Kind, o.Epoch)
 	case "ack", "clear":
 		return fmt.Sprintf("%s(%d->%d,%s)", o.Op, o.P, o.Q, o.X)
@@ -50,6 +55,7 @@ func genSops(t *rapid.T, ops []string, nPeers, minN, maxN int) []sop {
 		case "send":
 			o.Kind = rapid.SampledFrom(msgKinds).Draw(t, "kind")
 			o.Epoch = rapid.SampledFrom(epochKinds).Draw(t, "epoch")
+			o.Reuse = rapid.IntRange(0, 2).Draw(t, "reuse") == 0
 		case "ack", "clear":
 			o.X = rapid.SampledFrom([]string{"last", "last", "bogus"}).Draw(t, "x")
 		}
@@ -209,6 +215,11 @@ func (t *strace) apply(o sop) bool {
 			return false
 		}
 		t.seq++
+		msgSeq := t.seq
+		if prev, ok := t.lastSentSeq[k]; ok && o.Reuse {
+			msgSeq = prev
+			t.classes["message-seqno-reuse"] = true
+		}
 		cur := t.epoch(o.P, o.Q)
 		ann, annOK := t.lastAnnounced(o.P, o.Q)
 		var ep uint64
@@ -234,10 +245,10 @@ func (t *strace) apply(o sop) bool {
 		if other == o.Q {
 			other = (o.P + 2) % 3
 		}
-		m := mkMsg(o.Kind, o.P, other, []byte(fmt.Sprintf("m%d-%d-%d", o.P, o.Q, t.seq)), t.seq)
+		m := mkMsg(o.Kind, o.P, other, []byte(fmt.Sprintf("m%d-%d-%d", o.P, o.Q, t.seq)), msgSeq)
 		sub := submitted{at: tick(), from: o.P, to: o.Q, strm: s, msg: m, honest: o.Kind == "honest", epochSent: ep, epochCur: cur, kind: o.Kind, epochKind: o.Epoch}
 		t.subs = append(t.subs, sub)
-		t.lastSentSeq[k] = t.seq
+		t.lastSentSeq[k] = msgSeq
 		if o.Kind != "honest" {
 			t.classes["dishonest-send"] = true
 		}
